@@ -9,7 +9,10 @@ LEVEL_TEXT = ("Theorems in coq/Props/C05.v over Model/Graph.v (whose states are 
               "that list): rm deletes exactly the least set containing the named line and closed under 'mentions a removed "
               "line in a collection its class declares dependent' and keeps every other line untouched and in place; after it no "
               "remaining line mentions a removed one (guard excluding F28); the dependency tables the cascade reads (regenerated "
-              "from the record classes on every run) equal the table documented in doc/tutorial/references.rst. Tie: histories "
+              "from the record classes on every run) equal the table documented in doc/tutorial/references.rst; a rename edits "
+              "the lines as stated (the renamed line carries the new identifier, every other line is rewritten field by field), "
+              "the mentions of a rewritten line are exactly the old ones with the old identifier replaced, and a line that "
+              "did not mention it keeps its mentions (Proofs/RenameP.v, for identifiers free of the list separators). Tie: histories "
               "run on gfapy and on the model with the full observation compared after every operation (so the implementation's "
               "cascade, rename and tag edits are compared with the text edit step by step). Partial: 'equals a Gfa parsed afresh "
               "from the resulting text' is decided by the oracle (re-parse of the written non-virtual lines and comparison of the "
